@@ -269,8 +269,30 @@ class Gen:
             a = self.anyf()
             same = rng.random() < 0.85 or (self.avoid and tg == "cpp" and kind in ("maximum", "minimum"))
             b2 = self.f(self.types[a]) if same else self.anyf()
+            if kind == "pow" and tg == "python" and self.mayint(a) and self.mayint(b2):
+                # math.floor/ceil/trunc return Python ints: int ** int is exact bignum arithmetic and may not
+                # terminate in practice (floor(1e308) ** 10**10); give the power a genuine float exponent
+                b2 = self.add(["const", ["float", fhex(rng.choice([0.5, 1.5, 2.5, -0.5]))], a], self.types[a])
             return self.add(["op", kind, [a, b2]], self.fmax(self.types[a], self.types[b2]))
         return None
+
+    def mayint(self, j, depth=0):
+        """python target: may node j evaluate to a Python int (so that `**` would be bignum arithmetic)?"""
+        n = self.nodes[j]
+        if n[0] == "arg":
+            return self.types[j].startswith("integer")
+        if n[0] == "const":
+            return n[1][0] == "int"
+        if n[0] != "op" or depth > 60:
+            return False
+        k, ops = n[1], n[2]
+        if k in ("floor", "ceil", "truncate", "round"):
+            return True
+        if k in ("select", "maximum", "minimum"):
+            return any(self.mayint(o, depth + 1) for o in ops[-2:])
+        if k in ("add", "subtract", "multiply", "negative", "positive", "absolute", "remainder", "floor_divide", "pow", "square", "sign"):
+            return all(self.mayint(o, depth + 1) for o in ops)
+        return False
 
     def build(self):
         rng = self.rng
